@@ -1,8 +1,10 @@
 #!/usr/bin/env python3
 """Regenerate MANIFEST.json from the table below (run from /verif)."""
+import importlib
 import json
 import os
 import subprocess
+import sys
 
 ROOT = os.path.dirname(os.path.dirname(os.path.abspath(__file__)))
 
@@ -12,23 +14,27 @@ LEVEL_NOTE = ("Trusted: Coq 8.16.1 kernel (full .vo build, vm_compute, no native
               "source by the go/ast translator genparams; the Go runtime, fmt, sync and time are modelled, not verified. "
               "See DESIGN.md section 3.")
 
-CHECKS = {
-    "C18": dict(
-        engine="logger",
-        technique="Coq proof (invariant by induction over all interleavings + level/shape lemmas) on a model regenerated in part from the source; in-Coq evaluation of the model against the real loggers",
-        text="Machine-checked Coq theorems over the logger model: emitted iff level >= threshold for SimpleLogger and the slog adapter, "
-             "LevelOff/NoOp silent, record shape (own prefix, message, all arguments in order), and for every interleaving of any number "
-             "of goroutines each emitted line carries the label of the level it was logged at. Level constants, prefixes, the comparison "
-             "operator, format strings, the slog level mapping and the lock discipline are regenerated from the Go source on every run; the "
-             "model's emit functions are compared inside Coq with the real loggers on the full level x threshold x argument matrix, and a "
-             "concurrent stress run checks every line's label.",
-        design_ref="6 C18"),
-}
+CHECKS = {}   # filled from the MANIFEST dict of each checks/cXX.py
 
 NOT_YET = {}
 
 
+def collect():
+    sys.path.insert(0, ROOT)
+    sys.path.insert(0, os.path.join(ROOT, "lib"))
+    for i in range(1, 19):
+        pid = "C%02d" % i
+        try:
+            mod = importlib.import_module("checks." + pid.lower())
+        except ModuleNotFoundError:
+            continue
+        m = getattr(mod, "MANIFEST", None)
+        if m:
+            CHECKS[pid] = m
+
+
 def main():
+    collect()
     props = [json.loads(l) for l in open(os.path.join(ROOT, "properties.jsonl"))]
     checks = []
     na = []
